@@ -224,9 +224,19 @@ def frame_ro():
     return {"kind": "ro"}
 
 
-def frame_create(root):
+def frame_create(root, extra=(), cwd=None):
+    """the histories in scope: all of them in folder mode; with -sf the histories that own a named file (or lie below a named
+    folder) and the histories enclosing those, up to the root - a sibling history that receives nothing is outside the frame"""
     rr = os.path.realpath(root)
     hist = [rr] + ([os.path.join(rr, n) for n in W.nested_roots(rr)] if os.path.isdir(rr) else [])
+    extra = list(extra)
+    sel = [extra[i + 1] for i, a in enumerate(extra[:-1]) if a in ("-sf", "--single_file")]
+    if sel:
+        base = cwd or os.getcwd()
+        paths = [os.path.realpath(os.path.dirname(q)) + os.sep + os.path.basename(q) if os.path.islink(q) else os.path.realpath(q)
+                 for q in (os.path.normpath(x if os.path.isabs(x) else os.path.join(base, x)) for x in sel)]
+        inside = lambda a, b: a == b or a.startswith(b.rstrip(os.sep) + os.sep)  # a at or below b
+        hist = [h for h in hist if h == rr or any(inside(q, h) or inside(h, q) for q in paths)]
     return {"kind": "create", "root": rr, "asc": {os.path.join(h, "ascmhl") for h in hist}, "root_asc": os.path.join(rr, "ascmhl"), "root_asc_existed": os.path.lexists(os.path.join(rr, "ascmhl"))}
 
 
@@ -793,7 +803,7 @@ def run_world(run, wid, tree, nested, hist, fmts, tz, stride, salt):
         root = os.path.join(w.dir, os.path.relpath(root, base.dir)) if root else w.root
         extra = [a.replace(base.dir, w.dir) if isinstance(a, str) else a for a in extra]
         arg, cwd = spell(w, how, root)
-        act(run, cid, w, "create", [arg] + extra, cwd=cwd, frame=frame_create(root), key=("create", tree, tuple(nested), hist, op) if nontrivial else None, force=True)
+        act(run, cid, w, "create", [arg] + extra, cwd=cwd, frame=frame_create(root, extra, cwd or w.cwd), key=("create", tree, tuple(nested), hist, op) if nontrivial else None, force=True)
         if stride == 1 or op == "plain":
             act(run, cid2 + "/create-again", w, "create", [root, "-h", "md5"], frame=frame_create(root), key=("after-create", tree, tuple(nested), hist, op), force=True)
             act(run, cid2 + "/verify", w, "verify", [root], frame=frame_ro(), key=("after-verify", tree, tuple(nested), hist, op))
